@@ -254,10 +254,12 @@ type ringEnv struct {
 	points [][]uint32
 	codes  []uint32 // ascending, distinct
 	nPoint int
+	// backwards: per selector, the direction of the next sweep over the codes
+	backwards map[*consistenthash.ConsistentHash]bool
 }
 
 func newRingEnv(c RingCase) *ringEnv {
-	e := &ringEnv{c: c, idx: map[string]int{}}
+	e := &ringEnv{c: c, idx: map[string]int{}, backwards: map[*consistenthash.ConsistentHash]bool{}}
 	set := map[uint32]struct{}{}
 	add := func(x uint32) { set[x] = struct{}{} }
 	for i, u := range c.U {
@@ -326,7 +328,16 @@ var noRef = os.Getenv("C14_NO_REF") == "1"
 func (e *ringEnv) observe(ch *consistenthash.ConsistentHash, in []bool, where string) ([]int16, *stat.Failure) {
 	empty := count(in) == 0
 	got := make([]int16, len(e.codes))
-	for i, code := range e.codes {
+	// the codes are looked up alternately in ascending and descending order, so that the
+	// first lookup after an operation repeats the last lookup before it (a caller that sticks
+	// to one code across a membership change)
+	e.backwards[ch] = !e.backwards[ch]
+	for j := range e.codes {
+		i := j
+		if !e.backwards[ch] {
+			i = len(e.codes) - 1 - j
+		}
+		code := e.codes[i]
 		ep, err := ch.Select(hashMsg{code, selector.ConsistentHash})
 		if err != nil {
 			if !empty {
